@@ -2574,6 +2574,9 @@ def wrapper_findings(prog, file_rx=r".*"):
             if params_of(at, b.id) == {1} or (1 in params_of(at, b.id)):
                 flds = sorted({a[2] for a in at if a[0] == "field" and a[1] == owner})
                 on_self.append((bi, t, flds))
+        if not on_self and not calls and b.name in ("retain", "insert", "push", "clear", "extend", "remove", "append"):
+            out.append({"body": b, "name": b.name, "owner": owner, "verdict": False, "msg": "%s does not touch the inner collection at all (an empty body): the call is silently a no-op" % b.name, "fields": [], "line": b.line})
+            continue
         if len(on_self) != 1:
             out.append({"body": b, "name": b.name, "owner": owner, "verdict": None, "msg": "not a single delegating call", "fields": [], "line": b.line})
             continue
